@@ -58,9 +58,14 @@ def classify(case, fmt, step, path, a, b, err=None):
 def compare(ctx, case, fmt, step, orig, back):
     d = G.diff(back, orig, limit=6)
     for path, got, want in d:
+        if path.endswith("<key order>") and "skip_default" in step:
+            # a value that *equals* its default is left out by skip_default and comes back as the default: python's dict equality does
+            # not look at the order of the keys, so the default's order is what returns (counted, not a difference of values)
+            ctx.cls("skip_default: value equal to the default but with another key order comes back in the default's order")
+            continue
         sig = classify(case, fmt, step, path, want, got) or f"C01/{step}/{fmt}/differs:{type(want).__name__}->{type(got).__name__}"
         ctx.finding(sig, {"step": step, "format": fmt, "path": path, "original": repr(want)[:200], "reparsed": repr(got)[:200]})
-    return not d
+    return not [x for x in d if not (x[0].endswith("<key order>") and "skip_default" in step)]
 
 
 def reparse_error(ctx, case, fmt, step, cfg, text, ex):
